@@ -9,10 +9,13 @@ from vlib import template
 cfg = json.load(open(os.path.join(ROOT, "units.json")))
 for name, u in cfg["units"].items():
     drops = set()
+    shapes = {}
     for prof in u.get("profiles", [{"name": "default", "defines": {}}]):
         d = dict(u.get("defines", {}), **prof.get("defines", {}))
         text, origins, log = template.build(os.path.join(ROOT, u["vc"]), os.environ.get("VERIF_REPO", "/repo"), d)
         drops |= {x.replace(" ", "") for x in log.dropped}
+        shapes.update(log.loop_shapes)
     u["expected_not_under_contract"] = sorted(drops)
+    u["expected_loop_shapes"] = shapes
     print(name, len(drops))
 json.dump(cfg, open(os.path.join(ROOT, "units.json"), "w"), indent=1)
